@@ -47,6 +47,16 @@ func collect(e *Env, family string, n int, draw func(t *rapid.T) PkgSpec) []PkgS
 				s.Meta["case_twin_components"] = n
 			}
 		}
+		// a third of the documents carries vendor extensions of other tools, which goag ignores
+		if family != "C18" && s.Doc != nil && s.Raw == nil && rapid.IntRange(0, 2).Draw(t, "foreign_extensions") == 0 {
+			if raw, n := specgen.DecorateForeign(t, s.Doc.JSON()); n > 0 {
+				s.Raw = raw
+				if s.Meta == nil {
+					s.Meta = map[string]any{}
+				}
+				s.Meta["foreign_extensions"] = n
+			}
+		}
 		out = append(out, s)
 	}
 	rt.Check("collect-"+family, rt.Seed(e.Seed, rt.SeedStr(family)), n, time.Second, prop)
@@ -59,6 +69,18 @@ func collect(e *Env, family string, n int, draw func(t *rapid.T) PkgSpec) []PkgS
 		}
 	}
 	return out
+}
+
+// formWalker hands out the base-path forms in turn, from a seed-dependent start: every
+// form is used by about the same number of specs of a run, whatever the seed (a form
+// that a run of 64 specs happens not to draw leaves a whole class of base paths untried).
+func formWalker(e *Env, forms []specgen.BaseForm) func() specgen.BaseForm {
+	k := int(splitmix(e.Seed) % uint64(len(forms)))
+	return func() specgen.BaseForm {
+		f := forms[k%len(forms)]
+		k++
+		return f
+	}
 }
 
 type droppedSpec struct {
@@ -369,9 +391,6 @@ func compiledMain(e *Env, check string, specs []PkgSpec, race bool, timeout time
 				Replay: map[string]any{"openapi.json": string(ds.Raw), "config.json": cfgString(ds.Cfg)}})
 		}
 	}
-	if un := r.Labels["unmappable-package"]; un*20 > int64(st.Kept) {
-		incon = append(incon, fmt.Sprintf("harness could not map %d of %d packages", un, st.Kept))
-	}
 	if len(incon) > 0 {
 		return r, fmt.Errorf("%s", strings.Join(incon, "\n"))
 	}
@@ -434,7 +453,26 @@ func cmdPrep(root, inFile, outFile string) int {
 			if y := cfg.GoagYAML(); y != nil {
 				os.WriteFile(cfgFile, y, 0o644)
 			}
-			cmd := exec.Command(cli, cfg.CLIArgs(specFile, cfgFile, out)...)
+			args := cfg.CLIArgs(specFile, cfgFile, out)
+			// where the files lie, as users have them: absolute paths; or the spec in a
+			// sub-directory and the config beside the working directory, both named
+			// relative to it; or the config left to its default name (.goag.yaml)
+			if layout := splitmix(hashStr(s.Name)+11) % 3; layout != 0 {
+				os.Remove(specFile)
+				os.MkdirAll(filepath.Join(wd, "api"), 0o755)
+				os.WriteFile(filepath.Join(wd, "api", cfg.SpecName()), raw, 0o644)
+				args = cfg.CLIArgs(filepath.Join("api", cfg.SpecName()), ".goag.yaml", out)
+				if layout == 2 {
+					for i := 0; i+1 < len(args); i++ {
+						if args[i] == "--config" {
+							args = append(args[:i], args[i+2:]...)
+							break
+						}
+					}
+				}
+				via = fmt.Sprintf("cli:relative-paths-%d", layout)
+			}
+			cmd := exec.Command(cli, args...)
 			cmd.Dir = wd
 			if cout, err := cmd.CombinedOutput(); err != nil {
 				oc.Err = fmt.Errorf("%v: %s", err, clipStr(string(cout), 300))
